@@ -1,7 +1,7 @@
 (* Range: order dependence (F7), determinism with a single range unit, totality, NPT truncation (F8) *)
 From Coq Require Import ZifyBool ZifyNat ZifyN Permutation.
 From GVL Require Import NList.
-From GV Require Import Res Str StrProofs KeyVal KeyValProofs HdrTransport HdrAuthProofs HdrSessionProofs Float FloatProofs HdrRange.
+From GV Require Import Res Str StrProofs KeyVal KeyValProofs HdrTransport HdrAuthProofs HdrSessionProofs Float FloatProofs FloatRound NptRound HdrRange.
 Open Scope N_scope.
 
 Lemma gstep_commute a b : fst a <> fst b -> commute gstep a b.
@@ -433,4 +433,49 @@ Proof.
   intros Ho H1 H2 H3. apply range_roundtrip_partial; [exact Ho| |exact H3].
   cbn [r_value value_codec_ok]. split; [now apply smpte_codec|]. destruct en as [e|]; [|exact I].
   cbn [opt_all] in H2. now apply smpte_codec.
+Qed.
+
+(* ---- NPT, repaired code (F8 fixed by /repo ffeb757): every millisecond value below 2^50 ns (about 13 days) ---- *)
+Lemma seconds_of_shape d : (exists m e, seconds_of d = DFin false m e) \/ seconds_of d = DInf false \/ seconds_of d = DNaN.
+Proof.
+  unfold seconds_of, dadd_pos.
+  assert (Hmk : forall p q, (exists m e, mk_fin false p q = DFin false m e) \/ mk_fin false p q = DInf false).
+  { intros p q. unfold mk_fin. destruct (p =? 0); [left; eauto|]. destruct (r53 p q) as [m e].
+    destruct (971 <? e)%Z; [right; reflexivity|left; eauto]. }
+  destruct (Hmk (d / E9) 1) as [(m1 & e1 & ->)| ->]; [|right; right; reflexivity].
+  destruct (Hmk (d mod E9) E9) as [(m2 & e2 & ->)| ->]; [|right; right; reflexivity].
+  unfold mk_scaled. match goal with |- context [mk_fin false ?p ?q] => destruct (Hmk p q) as [(m & e & ->)| ->] end; [left; eauto|right; left; reflexivity].
+Qed.
+
+(* the contract of strconv that is not modelled as a theorem: ParseFloat (FormatFloat (x, 'f', -1, 64)) = x *)
+Definition float_contract (d : Z) : Prop :=
+  parse_float (format_float (seconds_of (Z.to_N d))) = Some (seconds_of (Z.to_N d)).
+
+Definition wf_npt (d : Z) : bool := (0 <=? d)%Z && (d mod 1000000 =? 0)%Z && (d <? 2 ^ 50)%Z.
+
+Theorem npt_codec_ms d : wf_npt d = true -> float_contract d -> codec_ok npt_unmarshal npt_marshal d.
+Proof.
+  Local Ltac Zify.zify_post_hook ::= Z.div_mod_to_equations.
+  intros Hwf Hc. unfold wf_npt in Hwf. rewrite !andb_true_iff in Hwf. destruct Hwf as [[H0 Hm] Hlt].
+  assert (Hex : to_int64_round (dmul_int (seconds_of (Z.to_N d)) E9) = d).
+  { rewrite npt_ms_exact; [lia| |].
+    - unfold MS. change (2 ^ 50)%Z with 1125899906842624%Z in Hlt.
+      assert (E : Z.of_N (Z.to_N d mod 1000000) = 0%Z) by (rewrite N2Z.inj_mod; rewrite Z2N.id by lia; lia). lia.
+    - change (2 ^ 50) with 1125899906842624. change (2 ^ 50)%Z with 1125899906842624%Z in Hlt. lia. }
+  unfold float_contract in Hc.
+  destruct (seconds_of_shape (Z.to_N d)) as [(m & e & Es)|[Es|Es]].
+  - rewrite Es in *. apply (npt_codec_partial d false m e); try assumption; try reflexivity. lia.
+  - rewrite Es in Hex. cbn in Hex. unfold MININT in Hex. change (Z.of_N P63) with 9223372036854775808%Z in Hex. lia.
+  - rewrite Es in Hex. cbn in Hex. unfold MININT in Hex. change (Z.of_N P63) with 9223372036854775808%Z in Hex. lia.
+Qed.
+
+Theorem range_roundtrip_npt st en tm o :
+  is_perm o -> wf_npt st = true -> float_contract st ->
+  match en with Some e => wf_npt e = true /\ float_contract e | None => True end ->
+  opt_all wf_utc tm = true ->
+  range_unmarshal_with o (range_marshal (mkRange (RNpt st en) tm)) = Ok (mkRange (RNpt st en) tm).
+Proof.
+  intros Ho H1 C1 H2 H3. apply range_roundtrip_partial; [exact Ho| |exact H3].
+  cbn [r_value value_codec_ok]. split; [now apply npt_codec_ms|]. destruct en as [e|]; [|exact I].
+  destruct H2 as [H2 C2]. now apply npt_codec_ms.
 Qed.
